@@ -255,10 +255,15 @@ class CachedStore(Entity):
         flushed = 0
         for key in list(self._dirty_keys):
             if key in self._cache:
-                yield from self._backing_store.put(key, self._cache[key])
-                self._dirty_keys.discard(key)
-                self._writebacks += 1
-                flushed += 1
+                # Persist the value that is current when the write lands: a put()
+                # or an eviction write-back during the write latency must not be
+                # overwritten by (or lose its dirty mark to) an older value.
+                yield self._backing_store.write_latency
+                if key in self._dirty_keys and key in self._cache:
+                    self._backing_store.put_sync(key, self._cache[key])
+                    self._dirty_keys.discard(key)
+                    self._writebacks += 1
+                    flushed += 1
         return flushed
 
     def _cache_put(self, key: str, value: Any) -> None:
